@@ -30,14 +30,18 @@ def split_execs(lines, nchunks):
     return [c for c in chunks if c], len(execs)
 
 
-VMSG_RE = re.compile(r'^<<"VMSG", (.*)>>$', re.M)
+VMSG_RE = re.compile(r'<<\s*"VMSG",\s*(.*?)\s*>>', re.S)  # TLC wraps long tuples over several lines
+
+
+def _tuples(out, tag):
+    return [re.sub(r"\s+", " ", m) for m in re.findall(r'<<\s*"%s",\s*(.*?)\s*>>' % tag, out, flags=re.S)]
 
 
 def parse_vmsg(out):
     res = []
     for m in VMSG_RE.finditer(out):
         try:
-            t = ast.literal_eval("(" + m.group(1) + ",)")
+            t = ast.literal_eval("(" + re.sub(r"\s+", " ", m.group(1)) + ",)")
         except Exception:
             continue
         # (line, exec, tags, check, codec, ctx)
@@ -56,19 +60,26 @@ def _one_chunk(args):
     vlib.run_driver(drv, beh, trc, timeout=3000)
     t1 = time.time()
     nlines = sum(1 for _ in open(trc))
-    r = vlib.run_tlc(os.path.join(vlib.SPEC, spec + ".tla"), os.path.join(vlib.SPEC, spec + ".cfg"),
-                     os.path.join(bdir, "tlc_%03d" % idx), env={"TRACE": trc}, workers=1, timeout=3000, xmx="1g")
+    msgs, drift, xstat, states, distinct = [], [], [], 0, 0
+    for sp in spec.split("+"):
+        r = vlib.run_tlc(os.path.join(vlib.SPEC, sp + ".tla"), os.path.join(vlib.SPEC, sp + ".cfg"),
+                         os.path.join(bdir, "tlc_%s_%03d" % (sp, idx)), env={"TRACE": trc}, workers=1, timeout=3000, xmx="1g")
+        consumed = ("Postcondition" not in r.out or "is false" not in r.out) and "Model checking completed" in r.out
+        if not consumed:
+            # the trace was not validated to its end: infrastructure problem (spec evaluation error)
+            raise vlib.Infra("trace %s not fully consumed by %s:\n%s" % (trc, sp, r.out[-3000:]))
+        msgs += parse_vmsg(r.out)
+        drift += _tuples(r.out, "DRIFT")
+        for body in _tuples(r.out, "XSTAT"):
+            f = body.replace("TRUE", "1").replace("FALSE", "0").split(", ")
+            xstat.append(tuple(int(x) for x in f))
+        states += r.states
+        distinct += r.distinct
     t2 = time.time()
-    consumed = ("Postcondition" not in r.out or "is false" not in r.out) and "Model checking completed" in r.out
-    if not consumed:
-        # the trace was not validated to its end: infrastructure problem (spec evaluation error)
-        raise vlib.Infra("trace %s not fully consumed by %s:\n%s" % (trc, spec, r.out[-3000:]))
-    msgs = parse_vmsg(r.out)
     for m in msgs:
         m["chunk"] = idx
-    drift = re.findall(r'^<<"DRIFT", (.*)>>$', r.out, flags=re.M)
-    return {"idx": idx, "beh": beh, "trace": trc, "lines": nlines, "states": r.states, "distinct": r.distinct,
-            "msgs": msgs, "drift": drift, "t_driver": t1 - t0, "t_tlc": t2 - t1, "execs": len(execs)}
+    return {"idx": idx, "beh": beh, "trace": trc, "lines": nlines, "states": states, "distinct": distinct,
+            "msgs": msgs, "drift": drift, "xstat": xstat, "t_driver": t1 - t0, "t_tlc": t2 - t1, "execs": len(execs)}
 
 
 def run_api(bdir, drv, beh_lines, nproc=None, spec="ApiTrace"):
@@ -78,7 +89,8 @@ def run_api(bdir, drv, beh_lines, nproc=None, spec="ApiTrace"):
     with cf.ThreadPoolExecutor(nproc) as ex:
         results = list(ex.map(_one_chunk, [(drv, bdir, i, c, spec) for i, c in enumerate(chunks)]))
     msgs = [m for r in results for m in r["msgs"]]
-    return {"results": results, "msgs": msgs, "execs": nexec, "drift": [d for r in results for d in r["drift"]], "lines": sum(r["lines"] for r in results),
+    return {"results": results, "msgs": msgs, "execs": nexec, "drift": [d for r in results for d in r["drift"]],
+            "xstat": [(r["idx"],) + x for r in results for x in r["xstat"]], "lines": sum(r["lines"] for r in results),
             "states": sum(r["states"] for r in results), "distinct": sum(r["distinct"] for r in results)}
 
 
@@ -101,7 +113,9 @@ def judge(pid, api, verdict, replay_dir_name=None):
     infra = [m for m in api["msgs"] if "INFRA" in m["tags"]]
     if infra:
         raise vlib.Infra("driver/protocol problem reported by the trace spec: %r" % infra[:3])
-    mine = [m for m in api["msgs"] if pid in m["tags"]]
+    # a crash / sanitizer report inside a protocol-conforming execution of this check's own workload
+    # means the property could not hold for that execution: it counts for the running property as well
+    mine = [m for m in api["msgs"] if pid in m["tags"] or m["check"].startswith("memfault-")]
     saved = {}
     for m in mine:
         key = "%s/codec%s" % (m["check"], m["codec"])
@@ -124,3 +138,44 @@ def sample_execs(beh_lines, count=3):
     execs = chunks[0] if chunks else []
     step = max(1, len(execs) // count)
     return [" ; ".join(e) for e in execs[::step][:count]]
+
+
+def stats_summary(api):
+    """aggregate the per-execution counters printed by the trace spec:
+    (chunk, x, dec, finok, finfail, cbn, calls, gettab, build, skipped)"""
+    xs = api.get("xstat", [])
+    return {
+        "executions_seen_by_spec": len(xs),
+        "executions_with_decoded_symbol": sum(1 for x in xs if x[2] > 0),
+        "decoded_source_symbols": sum(x[2] for x in xs),
+        "finish_ok": sum(x[3] for x in xs),
+        "finish_not_ok": sum(x[4] for x in xs),
+        "callback_invocations": sum(x[5] for x in xs),
+        "api_calls_validated": sum(x[6] for x in xs),
+        "gettab_validated": sum(x[7] for x in xs),
+        "build_validated": sum(x[8] for x in xs),
+        "executions_cut_short_by_violation": sum(1 for x in xs if x[9]),
+    }
+
+
+def nontrivial_distinct(api, pred):
+    """number of DISTINCT behaviours whose per-execution counters satisfy pred"""
+    seen = set()
+    by_chunk = {r["idx"]: r for r in api["results"]}
+    texts = {}
+    for x in api.get("xstat", []):
+        if not pred(x):
+            continue
+        c = x[0]
+        if c not in texts:
+            ex, cur = [], []
+            for ln in open(by_chunk[c]["beh"]):
+                ln = ln.rstrip("\n")
+                cur.append(ln)
+                if ln.startswith("reset"):
+                    ex.append("\n".join(cur))
+                    cur = []
+            texts[c] = ex
+        if x[1] < len(texts[c]):
+            seen.add(texts[c][x[1]])
+    return len(seen)
